@@ -178,6 +178,13 @@ public:
 	outfile.close();
 	if (!ok)
 	  return false;
+	// The data may only have been buffered so far; a failure to
+	// write it shows up when the file is closed.
+	if (!outfile)
+	  {
+	    std::cerr << output_body_file << ": " << strerror(errno) << "\n";
+	    return false;
+	  }
 	const string inf_file_name = output_body_file + ".inf";
 	if (!create_inf_file(inf_file_name, crc.get(), entry))
 	  {
